@@ -91,8 +91,32 @@ def mm_jobs(tier):
     return layout_jobs(tier, 'mm_parse', 'harness/c/mm_parse.c', 'harness_mm_parse', MM_SRC, shapes=shapes, kw=kw, ranged=False, skip=skip)
 
 
+UF_KINDS = {0: 'ReadInt8', 1: 'ReadInt16', 2: 'ReadInt32', 3: 'ReadInt64', 4: 'ReadFlat<Point>', 5: 'ReadFlat<Rect>', 6: 'ReadCString', 7: 'SeekRelative(any)', 8: 'ReadInt16s(n<=4)',
+            9: 'ReadBytes(n<=8)', 10: 'SeekTo(any)', 11: 'SeekPastPadding', 12: 'ReadLimiter+ReadInt32'}
+
+
+def uf_jobs(tier):
+    """C++ kernel: DataUnflattener read primitives on an exactly-sized symbolic buffer (memory-safety mode: CBMC's pointer checks on)"""
+    J = []
+    ns = [0, 3, 9, 17] if tier == 'quick' else [0, 1, 3, 4, 7, 8, 9, 15, 16, 17, 24]
+    seqs = []
+    ks = sorted(UF_KINDS)
+    for a in ks:
+        for b in (7, 10, 6, 2):           # every primitive followed by a seek / string / word read, then the same primitive again (cursor moved by an arbitrary seek)
+            seqs.append((a, b, a))
+    if tier != 'quick':
+        for a in ks:
+            for b in ks: seqs.append((a, b, 3))
+    for n in ns:
+        for sq in sorted(set(seqs)):
+            J.append(Job('unflattener N=%d %s' % (n, ' ; '.join(UF_KINDS[k] for k in sq)), 'B', 'harness/cpp/unflat.cpp', 'harness_unflat',
+                         pdefs={'IR2C_P0': n, 'IR2C_P1': sq[0], 'IR2C_P2': sq[1], 'IR2C_P3': sq[2], 'IR2C_P4': 0, 'IR2C_P5': 0}, unwind=n + 10, mode='mem', object_bits=10,
+                         family='unflattener', timeout=(120 if tier == 'quick' else 600), ir2c_flags=['--check-range']))
+    return J
+
+
 def run(tier, seed):
-    jobs = um_jobs(tier) + mm_jobs(tier)
+    jobs = um_jobs(tier) + mm_jobs(tier) + uf_jobs(tier)
     meta = {
         'rule': 'one CBMC job per (parser entry point, exact buffer length N); inside a job every buffer byte, field name byte, index and type-code argument is a solver variable; '
                 'a job is non-trivial iff its end-of-harness witness assertion is reachable (reported FAILED by CBMC)',
@@ -102,7 +126,8 @@ def run(tier, seed):
                         'forming/comparing out-of-bounds pointers without dereferencing (MicroMessage.c does this by design) is reported separately as unconfirmable UB'],
         'functions_encoded': ['MicroMessage.c: whole file (read accessors)'],
     }
-    return vrun.run_property('C02', tier, seed, jobs, meta)
+    ufj = [j for j in jobs if j.family == 'unflattener']
+    return vrun.run_property('C02', tier, seed, jobs, meta, diff_jobs=ufj[:2])
 
 
 if __name__ == '__main__':
